@@ -53,6 +53,13 @@ def run(chk, F):
     chk.guard("exact-stage-agreement", "canonicalize_exact", lambda: exact_means_exact(chk, F))
     chk.guard("context-lookup", "Context::lookup", lambda: context_lookup(chk, F))
     chk.guard("determinism", "registry", lambda: determinism(chk, F))
+    # "the first matching prefix wins" is only deterministic if the order of the prefix table is: it is filled in the order
+    # the loader emits definitions, so that order must be a function of the text (seeded C07-m6: the loader's work list as a
+    # HashSet - `dau` is 0.1 au in most processes and 10 u in some)
+    import loader_rules as L
+    chk.guard("determinism", "loader", lambda: L.determinism(chk, F, rule="determinism"))
+    chk.guard("determinism", "loader-containers", lambda: L.containers(chk, F, rule="determinism"))
+    chk.guard("determinism", "loader-worklist", lambda: L.driver_loop(chk, F, rule="determinism"))
     import shared_rules
     chk.guard("temporaries-cleared", "load_defs", lambda: shared_rules.temporaries_cleared(chk, F))
 
